@@ -1,1 +1,2 @@
+import Oracle.C06pc
 import Oracle.Main
